@@ -46,6 +46,7 @@ type Profile struct {
 	GroupedParams         bool
 	SliceQuery            bool
 	MinControllers        int
+	AllowOverlap          bool // keep some same-verb routes that overlap without being the same template (route-conflict warnings)
 	MirrorController      bool // sometimes add a controller that mirrors the first one with counterpart types from another package
 	GroupFollowerSameType bool // the parameter after a grouped declaration always has the group's type (router lab: the misbinding variant compiles)
 	StrayController       bool // sometimes declare an annotated controller inside a type package (outside the globs)
@@ -326,11 +327,18 @@ func GenProject(t *rapid.T, pf Profile) *Project {
 			lastVerbs[m.Verb] = true
 			route := "/" + strings.Join(segs, "/")
 			full := NormalisePath(c.Prefix(), route)
-			clash := false
+			clash, onlyBenign := false, true
 			for _, k := range taken {
 				if (k.verb == m.Verb && Overlap(k.path, full)) || sameTemplateOtherNames(k.path, full) {
 					clash = true
+					if sameTemplateOtherNames(k.path, full) || paramBlind(k.path) == paramBlind(full) {
+						onlyBenign = false
+					}
 				}
+			}
+			if clash && onlyBenign && pf.AllowOverlap && rapid.IntRange(0, 1).Draw(t, "keepOverlap") == 0 {
+				// GET /items/{id} next to GET /items/latest: legal, gleece only warns about it
+				clash = false
 			}
 			for depth := 1; clash && depth <= 6; depth++ {
 				// fall back to a literal route; deepen it until it overlaps nothing (a literal can still
@@ -439,6 +447,47 @@ func GenProject(t *rapid.T, pf Profile) *Project {
 			m.AnnOrder = rapid.SliceOfN(rapid.IntRange(0, 9), 0, 6).Draw(t, "annOrder")
 			c.Methods = append(c.Methods, m)
 		}
+		if pf.AllowOverlap && rapid.IntRange(0, 2).Draw(t, "overlapSibling") == 0 {
+			// GET /items/{id} gets a sibling GET /items/latest: the same signature minus the parameter that was bound to the
+			// replaced segment. Legal; gleece reports a route-conflict warning on both.
+			for _, src := range c.RealMethods() {
+				segs := segsOf(src.Route)
+				last := -1
+				for i, sg := range segs {
+					if isParamSeg(sg) {
+						last = i
+					}
+				}
+				if last < 0 || src.RawSig != "" {
+					continue
+				}
+				bound := strings.Trim(segs[last], "{}")
+				segs[last] = "latest"
+				sib := *src
+				sib.Name = fmt.Sprintf("%sLatest%d", src.Name, opIdx)
+				opIdx++
+				sib.Route = "/" + strings.Join(segs, "/")
+				sib.Params = nil
+				for _, prm := range src.Params {
+					if prm.In == "path" && prm.WireName() == bound {
+						continue
+					}
+					sib.Params = append(sib.Params, prm)
+				}
+				full := NormalisePath(c.Prefix(), sib.Route)
+				dup := false
+				for _, k := range taken {
+					if k.verb == sib.Verb && paramBlind(k.path) == paramBlind(full) {
+						dup = true
+					}
+				}
+				if !dup {
+					taken = append(taken, opKey{sib.Verb, full})
+					c.Methods = append(c.Methods, &sib)
+				}
+				break
+			}
+		}
 		p.Controllers = append(p.Controllers, c)
 	}
 	if pf.MirrorController && len(p.Controllers) > 0 && rapid.IntRange(0, 2).Draw(t, "mirror") > 0 {
@@ -480,6 +529,17 @@ func GenProject(t *rapid.T, pf Profile) *Project {
 		}
 	}
 	return p
+}
+
+// paramBlind rewrites every {name} of a path to {}: two templates that are equal then differ by parameter names only.
+func paramBlind(path string) string {
+	segs := segsOf(path)
+	for i, sg := range segs {
+		if isParamSeg(sg) {
+			segs[i] = "{}"
+		}
+	}
+	return strings.Join(segs, "/")
 }
 
 // mirrorController clones a controller the way one bounded context mirrors another in real services: the same method
@@ -909,13 +969,13 @@ var FullProfile = Profile{
 	MaxControllers: 3, MaxMethods: 5, CtrlPackages: []string{"api", "api2", "internal/api3"},
 	Decoys: true, Hidden: true, Security: true, ExtraParams: 4, Types: true, TypePackages: []string{"models", "shared"},
 	Validators: true, Responses: true, SlashNoise: true, SharedPrefix: true, PtrParams: true, FormParams: true,
-	ContextParams: true, GroupedParams: true, SliceQuery: true, TrailingSlash: true, StrayController: true, MirrorController: true,
+	ContextParams: true, GroupedParams: true, SliceQuery: true, TrailingSlash: true, StrayController: true, MirrorController: true, AllowOverlap: true,
 }
 
 // SecurityProfile biases towards C04: every level of security, varied scheme catalogue, enforce flag.
 var SecurityProfile = Profile{
 	MaxControllers: 3, MaxMethods: 4, CtrlPackages: []string{"api", "api2"},
-	Hidden: true, Security: true, Enforce: true, ExtraParams: 1, SharedPrefix: true, VarySchemes: true, UndeclaredScheme: true,
+	Hidden: true, Security: true, Enforce: true, ExtraParams: 1, SharedPrefix: true, VarySchemes: true, UndeclaredScheme: true, AllowOverlap: true,
 }
 
 // RouterProfile: batch projects for the router lab (many routes per project, bodies the harness can synthesise).
